@@ -617,3 +617,35 @@ def check_get_constructs(ctx, an, model):
                 why = "cached formatters are keyed by the option values" if ok else \
                     "a cached formatter is returned whose key ignores the option values: a later request gets the options of an earlier one"
             ctx.ob("registry.get-honours-options", get, r.ast, ok, why, node=r)
+
+
+def check_xml_output_validated(ctx, an, model):
+    """ElementTree writes tag names and text unchecked; the document XmlConfigFormat.dumps returns has been through a
+    parser, so a key that is no XML name / a control character makes dumps *fail* instead of producing a file that cannot
+    be loaded."""
+    from engine.flow import must_pass
+    dumps = model.method("XmlConfigFormat", "dumps")
+    PARSERS = {"parseString", "fromstring", "XML", "parse", "XMLParser", "feed"}
+    fns = [dumps] + [c for c in an.reachable_fns([dumps]) if c.cls is dumps.cls and c is not dumps]
+
+    def is_parse(n):
+        return n.kind == "call" and (
+            (isinstance(n.ast.func, ast.Attribute) and n.ast.func.attr in PARSERS) or
+            (isinstance(n.ast.func, ast.Name) and n.ast.func.id in PARSERS))
+    validated = {}
+    for f in fns:
+        g = an.cfg(f)
+        rets = [n for n in g.nodes if n.kind == "return"]
+        ok = bool(rets) and any(is_parse(n) for n in g.nodes) and all(must_pass(an, f, r, is_parse) is None for r in rets)
+        validated[f] = ok
+    # dumps itself, or a helper it passes through on every path
+    g = an.cfg(dumps)
+    ok = validated[dumps]
+    if not ok:
+        rets = [n for n in g.nodes if n.kind == "return"]
+        helper_call = lambda n: n.kind == "call" and any(validated.get(c) for c in an.callees(dumps, n))
+        ok = bool(rets) and all(must_pass(an, dumps, r, helper_call) is None for r in rets)
+    ctx.ob("xml.output-validated", dumps, "serialised document re-parsed before it is returned", ok,
+           "the document is parsed once before dumps returns: out-of-domain keys / characters make dumps fail, nothing unloadable is written" if ok else
+           "XmlConfigFormat.dumps returns what ElementTree wrote without parsing it: a key that is no XML name or a control character "
+           "yields a document that cannot be loaded, and save overwrites the previous file with it")
